@@ -190,7 +190,8 @@ class GTracer:
         def mk_add_node(tr, a, kw):
             n = arg(a, kw, 1, 'node')
             rid = arg(a, kw, 2, 'node_id')
-            ev = {'op': 'AddNode', 'h': tr.handle(n), 'kind': str(n.type), 'reqId': NOID if rid is None else int(rid)}
+            ev = {'op': 'AddNode', 'h': tr.handle(n), 'kind': str(n.type), 'reqId': NOID if rid is None else int(rid),
+                  'preset': bool(n.children or n.parents or n.compromised_by)}
             ev['_post'] = lambda e: e.__setitem__('id', n.id if isinstance(n.id, int) else -1)
             return ev
         wrap(ag.AttackGraph, 'add_node', mk_add_node, g_of)
@@ -209,7 +210,19 @@ class GTracer:
             return ev
         wrap(ag.AttackGraph, 'add_attacker', mk_add_attacker, g_of)
         wrap(ag.AttackGraph, 'remove_attacker', lambda tr, a, kw: {'op': 'RemoveGAttacker', 'h': tr.handle(arg(a, kw, 1, 'attacker'))}, g_of)
-        wrap(ag.AttackGraph, 'attach_attackers', lambda tr, a, kw: {'op': 'Other', 'what': 'attach_attackers'}, g_of)
+        def mk_attach(tr, a, kw):
+            g = a[0]
+            before = {id(x) for x in g.attackers}
+            ev = {'op': 'AttachAttackers'}
+
+            def post(e):
+                e['atks'] = [{'h': tr.handle(x), 'id': x.id if isinstance(x.id, int) else -1, 'name': str(x.name),
+                              'entry': [tr.handle(n) for n in x.entry_points],
+                              'reached': [tr.handle(n) for n in x.reached_attack_steps]}
+                             for x in g.attackers if id(x) not in before]
+            ev['_post'] = post
+            return ev
+        wrap(ag.AttackGraph, 'attach_attackers', mk_attach, g_of)
         wrap(ag.AttackGraph, 'regenerate_graph', lambda tr, a, kw: {'op': 'Other', 'what': 'regenerate_graph'}, g_of)
 
         def own(a, kw):
